@@ -281,9 +281,6 @@ fn inflate_bytes(data: &[u8]) -> Result<Vec<u8>> {
 pub fn flate_decode(data: &[u8], params: &LZWFlateParams) -> Result<Vec<u8>> {
 
     let predictor = params.predictor as usize;
-    let n_components = params.n_components as usize;
-    let columns = params.columns as usize;
-    let stride = columns * n_components;
 
 
     // First flate decode
@@ -302,8 +299,22 @@ pub fn flate_decode(data: &[u8], params: &LZWFlateParams) -> Result<Vec<u8>> {
 
     // 10..=15 are the PNG predictors; 10 (None on every row) still has a tag byte per row
     if predictor >= 10 {
+        // the row geometry comes from the file: reject what cannot describe a row of the decoded data
+        let n_components = usize::try_from(params.n_components).ok().filter(|&n| n > 0);
+        let columns = usize::try_from(params.columns).ok().filter(|&n| n > 0);
+        let stride = match (columns, n_components) {
+            (Some(columns), Some(n_components)) => columns.checked_mul(n_components),
+            _ => None
+        };
+        let (stride, n_components) = match (stride, n_components) {
+            (Some(stride), Some(n_components)) if stride < usize::MAX => (stride, n_components),
+            _ => bail!("invalid predictor geometry: {} columns, {} components", params.columns, params.n_components)
+        };
         let inp = decoded; // input buffer
         let rows = inp.len() / (stride+1);
+        if rows == 0 {
+            return Ok(Vec::new());
+        }
         
         // output buffer
         let mut out = vec![0; rows * stride];
